@@ -227,3 +227,97 @@ func c18fullBody(c *Ctx) {
 	}
 	c.R.Min(rule, 2, "decryptBody, caller guard")
 }
+
+// c18cipherInput (R7b, round 5): an undecodable body is answered with an error, never with a crash or with garbage.
+// (i) EcbDecrypt hands its buffer to pkcs5Unpadding only after it established that the ciphertext is a whole number
+// of blocks (the BlockMode interface has no error result: CryptBlocks just logs and leaves the output zeroed, and the
+// unpadding then accepts the zeros — the handler would read NUL bytes); (ii) pkcs5Unpadding reads src[len-1] only
+// after it established that src is not empty (a body of "\n" decodes to zero bytes and indexes src[-1]: a panic
+// instead of the 400).
+func c18cipherInput(c *Ctx) {
+	rule := "C18.R7"
+	pkg := "core/codec"
+	lenOf := func(f *ssa.Function, idx int) func(s *px.Sym) bool {
+		return func(s *px.Sym) bool { return isLenOf(s, func(x *px.Sym) bool { return isParam(x, f.Params[idx]) }) }
+	}
+	mentions := func(s *px.Sym, pred func(*px.Sym) bool) bool {
+		var rec func(s *px.Sym, d int) bool
+		rec = func(s *px.Sym, d int) bool {
+			if s == nil || d > 8 {
+				return false
+			}
+			if pred(s) {
+				return true
+			}
+			return rec(s.X, d+1) || rec(s.Y, d+1)
+		}
+		return rec(s, 0)
+	}
+	if f := c.fn(rule, pkg, "EcbDecrypt"); f != nil {
+		ps := c.paths(rule, f, px.Config{})
+		isLen := lenOf(f, 1)
+		c.forall(rule, pkg+".EcbDecrypt#whole-blocks", "the ciphertext is unpadded only after its length was found to be a multiple of the block size (otherwise an error is returned)", f, ps, func(p *px.Path) (bool, string) {
+			un := p.First(calleeIs(pkg + ".pkcs5Unpadding"))
+			if un == nil {
+				return true, ""
+			}
+			for _, b := range p.All(px.KindIs(px.EvBranch)) {
+				if b.Seq > un.Seq {
+					break
+				}
+				cnd := b.Cond.Strip(true)
+				if cnd.Kind == px.KBinOp && mentions(cnd, func(s *px.Sym) bool {
+					s = s.Strip(true)
+					return s.Kind == px.KBinOp && s.Op == token.REM && isLen(s.X)
+				}) {
+					return true, ""
+				}
+			}
+			return false, "EcbDecrypt unpads its buffer without having tested len(src) % blockSize: for a ciphertext that is not a whole number of blocks CryptBlocks only logs and leaves the buffer zeroed, the unpadding accepts the zeros, and the caller receives NUL bytes as the plaintext instead of an error"
+		})
+	}
+	if f := c.fn(rule, pkg, "pkcs5Unpadding"); f != nil {
+		ps := c.paths(rule, f, px.Config{})
+		isLen := lenOf(f, 0)
+		c.forall(rule, pkg+".pkcs5Unpadding#non-empty", "the last byte is read only after the input was found non-empty", f, ps, func(p *px.Path) (bool, string) {
+			var rd *px.Event
+			for i := range p.Events {
+				e := &p.Events[i]
+				if e.Kind == px.EvLoad && e.Addr != nil && e.Addr.Kind == px.KIndexAddr && isParam(e.Addr.X, f.Params[0]) {
+					rd = e
+					break
+				}
+			}
+			if rd == nil {
+				// the engine records loads lazily: fall back to any branch/return depending on an element of src
+				for i := range p.Events {
+					e := &p.Events[i]
+					if e.Kind == px.EvBranch && mentions(e.Cond, func(s *px.Sym) bool {
+						return s.Kind == px.KLoad && s.X != nil && s.X.Kind == px.KIndexAddr && isParam(s.X.X, f.Params[0])
+					}) {
+						rd = e
+						break
+					}
+				}
+			}
+			if rd == nil {
+				return true, ""
+			}
+			for _, b := range p.All(px.KindIs(px.EvBranch)) {
+				if b.Seq >= rd.Seq {
+					break
+				}
+				cnd := b.Cond.Strip(true)
+				if cnd.Kind == px.KBinOp && (isLen(cnd.X) || isLen(cnd.Y)) {
+					if _, ok := constInt(p, cnd.Y); ok {
+						return true, ""
+					}
+					if _, ok := constInt(p, cnd.X); ok {
+						return true, ""
+					}
+				}
+			}
+			return false, "src[len(src)-1] is read without len(src) having been compared with a constant first: an empty input (a body of \"\\n\" base64-decodes to zero bytes) indexes src[-1] and panics"
+		})
+	}
+}
